@@ -405,6 +405,8 @@ def finish(prop, level, reports, tier, t0, rule, assumptions=(), extra=None, exh
         cov["transitions"] = sum(r.transitions for r in reports)
         cov["traces_validated_against_impl"] = sum(r.traces for r in reports)
     if extra:
+        extra = dict(extra)
+        harness_errors.extend(extra.pop("harness_errors", []))
         cov.update(extra)
     ev = {
         "property_id": prop, "tier": tier, "seed": core.seed(), "level": level, "coverage": cov,
